@@ -39,6 +39,7 @@ from harness import lib
 from harness.lib import q, ql, b, bl, natl
 from harness.props import c16_gen as G
 from harness.props import c16_export as XM
+from harness.props import c16_types as TY
 
 INF = float('inf')
 TOL = Fraction(1, 10 ** 12)
@@ -1117,6 +1118,8 @@ def dedup_violations(ctx):
         orig(what + (' [key=%s]' % key if key else ''), data=data, key=key, no_input=no_input, broken=broken)
     ctx.violation = violation
 
+LOG_FS = {}        # tag -> spectrum of the log phase (the types stream compares its canonical single-grid value with it)
+
 def run(ctx):
     dedup_violations(ctx)
     ctx.rule = ('log cases = random demes graphs (forward construction: splits, branches, mergers, admixtures, renames, extinctions, '
@@ -1138,7 +1141,11 @@ def run(ctx):
                 'hand-written native program); DemesUtil.slice on its own '
                 'for every graph at its own slice time and at times chosen per class (inside / at the end of growth epochs, epoch '
                 'boundaries, pulse and migration times, deme starts), '
-                'hand-written native models and the YAML files of tests/demes; numeric variants (units, rescale, order, explicit '
+                'hand-written native models and the YAML files of tests/demes; the argument-types stream (c16_types.py: seven bases, one per '
+                'regime of the sampling spec, each ALSO a log case; Demes.SFS twice / from_demes on three grids + Demes.SFS / DemesUtil.slice '
+                'twice / Demes.output twice with the same argument objects in every container, dtype, numpy scalar, 0-d array, strided / '
+                'reversed / read-only view, masked array the unchanged library accepts - reviewed table c16_types.EXPECT - one factor at a '
+                'time and all factors at once: result bit-identical to the canonical spelling, arguments unchanged after every call); numeric variants (units, rescale, order, explicit '
                 'frozen branches, pulse pairs listed in another order) of every case and the model\'s program of every case executed as '
                 'a native dadi model; export cases = random native programs of 1-5 populations plus fixed ones (4-D / 5-D pulses; '
                 'reorder_pops followed by a multi-source pulse with different fractions; one integration of 2-5 populations changing size with '
@@ -1180,12 +1187,21 @@ def run(ctx):
     except (Refuse, SyntaxError, OSError) as e:
         ctx.obligation('translate _augment_with_ancient_samples (size of the frozen branch)', False, 'translator', str(e))
 
+    # frame condition of Demes.SFS on its arguments (c16_types.frame_obligation): working copies, no parameter modified in place
+    frame_bad = TY.frame_obligation(ctx)
+    ctx.obligation('Demes.SFS works on copies of sampled_demes / sample_times and modifies no argument in place (helpers modify only the '
+                   'reviewed parameters)', not frame_bad, 'translator', '; '.join(frame_bad[:4]))
+
     do_log = do_export = do_slice = True
     cases = None
     progs = None
+    types_st = None
     if ctx.replay:
         rp = json.load(open(ctx.replay))
         inp = rp.get('input') or {}
+        if inp.get('kind') == 'types' and 'base' in inp:
+            TY.replay(ctx, inp)
+            return
         if inp.get('kind') == 'export' and 'case' in inp:
             progs = [dict(inp['case'], id=0)]; do_log = do_slice = False
         elif inp.get('kind') == 'slice' and 'case' in inp:
@@ -1198,12 +1214,31 @@ def run(ctx):
             for nm, g, sampled, ns, Ne, pts, ops, *rest in [x for _ in range(ctx.pick(2, 12)) for x in native_shapes(ctx.rng)]:
                 cases.append({'graph': g, 'sampled': sampled, 'ns': ns, 'times': rest[0] if rest else None, 'Ne': Ne, 'pts': pts,
                               'tag': 'native:' + nm, 'maxd': len(sampled), 'native_ops': ops, 'id': len(cases)})
+            # argument types / containers / layouts (c16_types.py): the bases in canonical spelling are log cases as well; the
+            # spellings run in the background (own interpreters) and are accounted for at the end
+            import random as _random
+            type_bases = TY.bases(_random.Random('C16-types-%d' % ctx.seed))
+            for b_ in type_bases:
+                cases.append(dict(TY.log_case(b_), id=len(cases)))
+            types_st = TY.start(ctx, type_bases)
         load_yaml_graphs(cases)
         origs = log_phase(ctx, cases, model_wiring, pnu, bad_frozen)
     if do_slice and cases is not None:
         slice_phase(ctx, cases, origs if do_log else {})
     if do_export:
         export_phase(ctx, progs, pulses_bad, pnu)
+    if types_st is not None:
+        nv = TY.finish(ctx, types_st, LOG_FS, discover=os.environ.get('C16_TYPES_DISCOVER'))
+        lap(ctx, 'types stream (rest)')
+        broken = [o['name'] for o in ctx.obligations if not o['ok'] and o['kind'] == 'translator' and not o.get('known_key')]
+        if broken and not nv:
+            # a source obligation broke and the stream found nothing: targeted search over the spellings at thorough size
+            nv = TY.targeted(ctx, broken[0][:60])
+            lap(ctx, 'types stream targeted search')
+        if frame_bad and not nv:
+            ctx.violation('the frame condition of Demes.SFS on its arguments is not established (%s) but no spelling of the arguments '
+                          'in the types stream (also at thorough size) shows a modified argument or another result' % '; '.join(frame_bad[:3]),
+                          no_input=True, broken='frame condition of Demes.SFS (c16_types.frame_obligation)')
 
 def log_phase(ctx, cases, wiring, pnu, bad_frozen):
     lap(ctx, 'translators + generation')
@@ -1270,6 +1305,7 @@ def log_phase(ctx, cases, wiring, pnu, bad_frozen):
                  sample={'sampled': c['sampled'], 'times': c['times'], 'Ne': c.get('Ne'), 'tag': c['tag'],
                          'demes': [d['name'] for d in c['graph']['demes']],
                          'program': [x['fn'] for x in r['calls']], 'fs_head': r['fs']['data'][:5]})
+        LOG_FS[c.get('tag')] = r['fs']
         if r.get('mutated_inputs'):
             ctx.violation('from_demes modified the caller\'s sampled_demes / sample_times lists', data={'kind': 'log', 'case': strip(c)})
         if r['fs']['pop_ids'] != list(c['sampled']) and not info['ancient']:
